@@ -163,6 +163,20 @@ func ammoCases(rng *rand.Rand, n int) []Case {
 			out = append(out, Case{Kind: "ammo", Format: format, Mut: "no-entries+unbounded", Text: []byte(text)})
 		}
 	}
+	// a filter that lets nothing through (chosencases naming a tag no entry has) over well-formed
+	// and over cut-short files, with and without preloading, bounded and unbounded: the outcome is
+	// an error or an empty delivery, never a crash and never an endless read
+	for _, format := range []string{"uri", "uripost", "raw", "jsonline"} {
+		f, _ := stableFile(rng, format)
+		data := f.Render()
+		for _, text := range [][]byte{data, data[:len(data)/2], nil, []byte("\n")} {
+			for _, pre := range []bool{false, true} {
+				for _, mut := range []string{"chosencases-none", "chosencases-none+unbounded"} {
+					out = append(out, Case{Kind: "ammo", Format: format, Mut: mut, Text: text, Preview: preview(text), Preload: pre})
+				}
+			}
+		}
+	}
 	out = append(out, Case{Kind: "ammo", Format: "grpcjson", Mut: "empty-file", Text: nil})
 	out = append(out, Case{Kind: "ammo", Format: "grpcjson", Mut: "blank-file", Text: []byte("\n\n")})
 	return out
@@ -184,6 +198,9 @@ func runAmmo(res *vkit.Result, c Case, final bool, watchdog time.Duration) strin
 	}
 	if strings.Contains(c.Mut, "continue-on-error") {
 		conf["continueonerror"] = true
+	}
+	if strings.Contains(c.Mut, "chosencases-none") {
+		conf["chosencases"] = []any{"verif-no-such-tag"}
 	}
 	var p core.Provider
 	var err error
